@@ -9,7 +9,6 @@
 //!   | cl notify | cl abandon <op> | cl deliver <text hex> | cl next <op> | cl drop <op>
 //!   | cl unsub <op> | cl gate open|shut | cl sizes
 //! Front-end operations are numbered 0,1,2,… in script order (`op` = ticket).
-#![allow(unexpected_cfgs)]
 use crate::common::*;
 use futures_util::FutureExt;
 use jsonrpsee_core::client::{
@@ -521,14 +520,8 @@ impl Session {
 				self.settle(&mut obs).await;
 			}
 			("sizes", _) => {
-				#[cfg(jrpc_c18_hook)]
-				{
-					obs.sizes = Some(self.client.verif_table_sizes());
-				}
-				#[cfg(not(jrpc_c18_hook))]
-				{
-					obs.literal = Some("#skip sizes hook not built".into());
-				}
+				// cfg-guarded hook in /repo (commit 57065e9): sizes of the four manager tables
+				obs.sizes = Some(self.client.verif_table_sizes());
 			}
 			_ => {
 				obs.literal = Some("bad-op".into());
